@@ -63,6 +63,16 @@ def str : P String := do
   | some s => pure s
   | none => failure
 
+/-- `_` + hex → raw bytes (no UTF-8 validation) -/
+def bytes : P (List UInt8) := do
+  let t ← tok
+  match t.toList with
+  | '_' :: cs =>
+    match unhexBytes cs ByteArray.empty with
+    | some b => pure b.toList
+    | none => failure
+  | _ => failure
+
 def many {α} (n : Nat) (p : P α) : P (List α) :=
   match n with
   | 0 => pure []
